@@ -187,6 +187,8 @@ def contexts(tier):
     # expressions in constant-expression / condition positions, statement expressions, _Atomic(...) in type names
     cls = {"?V": ["1", "x"], "?W": ["2u", "T"], "?S": [",", "="],
            # statement heads (multi-token hole classes), static assertions, declarations sharing a specifier list
+           "?K": ["1", "07", "0", "0x1F", "0xFuL", "0b1", "2u", "1.0", "1.0f", "2e3F", "0x1p0", "'c'", '"s"'], "?F": ["x", "p1", "e1"],
+           "?G": ["-", "+", "&", "*", "--", "++", "!", "~"], "?B": ["-", "+", "&", "*", "&&", "/"],
            "?H": ["if ( x )", "else", "while ( x )", "for ( ; ; )", "for ( ( { 1 ; } ) ; ( { 1 ; } ) ; ( { 1 ; } ) )", "do", "x :", "T :", "case 1 :", "default :", "switch ( x )", ""],
            "?A": ['_Static_assert ( 1 , "s" ) ;', "_Static_assert ( 1 ) ;", 'struct { _Static_assert ( 1 , L"w" "s" ) ; int x ; } y ;', "x ;", "int y ;", ";", "{ }"],
            "?D": ["T T , x ;", "T x , T ;", "T T , * x , y [ sizeof ( T ) ] ;", "T * T , x ;", "typedef T T , x ;", "T x = sizeof ( T ) , T ;", "struct x { T T ; T y ; } T , y ;", "enum { y , T } x ; T y ;"],
@@ -207,6 +209,9 @@ def contexts(tier):
         (c05.FN, "?D T ;", ["}"]),
         (c05.FN, "{ ?D } T * x ;", ["}"]),
         (c02.PRE, 'char x [ ] = "s" L"w" , y [ ] = u8"s" "s" "s" ;', []),
+        # tokens that must not be glued together by the generator: constant . member, - -x, + +x, & &x, x - -y, x + +y, x & &y
+        (c05.FN, "x = ?K . ?F + ?K . ?F . ?F ;", ["}"]),
+        (c05.FN, "x = ?G ?G ?V ?B ?G ?G ?V ;", ["}"]),
     ]
     for i, (pre, pat, suf) in enumerate(extra):
         out.append((PatCtx(f"rt:extra{i}:{pat}", pre, pat, suf, cls), 0))
@@ -225,7 +230,8 @@ def main():
     nval = checklib.validate_parser_translation(P)
     report.notes.append(f"translator validation: {nval} repository test inputs")
     NG = loader.native("c_generator")
-    alpha = toklex.full_alphabet()
+    # p1 / e1: member names that would glue with a preceding constant into a (hex) floating constant
+    alpha = toklex.full_alphabet(idents=("IDENT:x", "IDENT:y", "IDENT:T", "IDENT:p1", "IDENT:e1"))
     seen_text = set()
 
     def path_fn(Lex, tpl):
